@@ -1,2 +1,3 @@
 use crate::stdlib::num::NonZeroUsize;
 use crate::stdlib::fmt;
+#[allow(unused_imports)] use crate::shim_write as write;
